@@ -312,8 +312,8 @@ def c11_oracle(full, io, b):
         if any((v.get(src, c) is None or v.get(src, c).startswith("!")) for c in COMPONENTS):
             continue
         sval = v.get(src, "val")
-        if sval and sval.startswith("L5:") and sval[3:].split(",")[1] == "" and v.get(src, "raw_host") == "":
-            continue      # authority that normalised to an empty netloc: the listed C09 finding, not a modifier effect
+        if v.get(src, "raw_host") == "":
+            continue      # empty host: outside the property's quantifier (reg-name / IPv4 / IPv6 hosts); also covers the listed C09 finding
         for c in COMPONENTS:
             if c in allowed:
                 continue
